@@ -74,7 +74,7 @@ def _work(job):
     if r not in ("unsat", "sat") and fallback:
         # second opinions
         s2 = smt2 if "(check-sat)" in smt2 else smt2 + "\n(check-sat)\n"
-        tsec = max(5, timeout_ms // 1000)
+        tsec = max(5, min(10, timeout_ms // 1000))
         r2, info2, dt2 = _run_cli(["/usr/bin/cvc5", "--strings-exp", "--lang=smt2", f"--tlimit={tsec*1000}", "-"], s2, tsec)
         res["tries"].append({"backend": "cvc5-1.0.3", "result": r2, "s": round(dt2, 3)})
         if r2 in ("unsat", "sat"):
